@@ -37,7 +37,9 @@ func memRootSeen(v ssa.Value, fn *ssa.Function, depth int, seen map[ssa.Value]bo
 	if depth > 40 {
 		return "derived:deep"
 	}
-	if _, isPhi := v.(*ssa.Phi); isPhi {
+	_, isPhi := v.(*ssa.Phi)
+	_, isLoad := v.(*ssa.UnOp)
+	if isPhi || isLoad {
 		if seen[v] {
 			return "" // a cycle through an accumulating variable: neutral
 		}
@@ -79,10 +81,28 @@ func memRootSeen(v ssa.Value, fn *ssa.Function, depth int, seen map[ssa.Value]bo
 	case *ssa.MakeInterface:
 		return memRoot(o.X, fn, depth+1)
 	case *ssa.UnOp:
+		if g, ok := o.X.(*ssa.Global); ok && o.Op == token.MUL {
+			return "loaded:global:" + g.Name()
+		}
 		if o.Op == token.MUL {
 			// a pointer or slice read from memory: what it points to is not this function's
 			// unless it was read from a local that holds a local's address
 			if r := memRoot(o.X, fn, depth+1); r == "local" || r == "captured" {
+				if fv, ok := o.X.(*ssa.FreeVar); ok {
+					// a captured variable: what the enclosing function (and its closures) store into it
+					if cell := freeVarCell(fn, fv); cell != nil {
+						all, n := true, 0
+						forEachCellStore(cell, func(val ssa.Value, sfn *ssa.Function) {
+							n++
+							if r := memRootSeen(val, sfn, depth+1, seen); r != "local" && r != "" {
+								all = false
+							}
+						})
+						if n > 0 && all {
+							return "captured"
+						}
+					}
+				}
 				if a, ok := rootAllocOf(o.X); ok {
 					// what was stored into that local?
 					if refs := a.Referrers(); refs != nil {
@@ -90,7 +110,7 @@ func memRootSeen(v ssa.Value, fn *ssa.Function, depth int, seen map[ssa.Value]bo
 						for _, ref := range *refs {
 							if st, ok := ref.(*ssa.Store); ok && st.Addr == ssa.Value(a) {
 								n++
-								if memRoot(st.Val, fn, depth+1) != "local" {
+								if r := memRoot(st.Val, fn, depth+1); r != "local" && r != "" {
 									all = false
 								}
 							}
@@ -128,6 +148,30 @@ func memRootSeen(v ssa.Value, fn *ssa.Function, depth int, seen map[ssa.Value]bo
 		if bi, ok := o.Call.Value.(*ssa.Builtin); ok && bi.Name() == "append" {
 			// the result of append may share the first argument's backing array
 			return memRoot(o.Call.Args[0], fn, depth+1)
+		}
+		// a module function that returns a view of one of its parameters (`func (r fieldRange)
+		// in(bz []byte) []byte { return bz[r.start:r.end] }`): the result points into that argument
+		if callee := o.Call.StaticCallee(); callee != nil && !o.Call.IsInvoke() && callee.Blocks != nil && curProg.inModuleCode(callee) && depth < 30 {
+			idx := -2
+			for _, ret := range allReturns(callee) {
+				if len(ret.Results) != 1 {
+					idx = -1
+					break
+				}
+				rr := memRootSeen(ret.Results[0], callee, depth+10, map[ssa.Value]bool{})
+				i := -1
+				if strings.HasPrefix(rr, "param:") {
+					fmt.Sscan(strings.TrimPrefix(rr, "param:"), &i)
+				}
+				if i < 0 || (idx >= 0 && idx != i) {
+					idx = -1
+					break
+				}
+				idx = i
+			}
+			if idx >= 0 && idx < len(o.Call.Args) {
+				return memRoot(o.Call.Args[idx], fn, depth+1)
+			}
 		}
 		return "derived:result of " + callNameOf(curProg.tx(fn), o)
 	case *ssa.Extract:
@@ -176,7 +220,8 @@ var knownMemWrites = map[string]string{
 	"(*types.BurnMessage).Parse|param:0":          "the decoder assigns the fields of its receiver (C16 judges what)",
 	"keeper.VerifyAttestationSignatures|param:1":  "legacy recovery id normalisation sig[64] -= 27, the only write into the attestation (C01 rule 5 judges it)",
 	"cctp.ExportGenesis|derived:result of types.DefaultGenesis": "fills the fresh object DefaultGenesis returns (C17 judges what)",
-	"types.init|copy into types.PaddedModuleAddress[12:]":       "package initialisation of the padded module address (C04/C06 pin its value by T-eq on this init)",
+	"types.init|loaded:global:PaddedModuleAddress":              "package initialisation of the padded module address (C04/C06 pin its value by T-eq on this init)",
+	"types.init|external:loaded:global:amino":                   "amino registration / sealing at package initialisation",
 	"types.init|codec.NewProtoCodec receives codec/types.NewInterfaceRegistry() as argument 0": "the module codec's initialiser",
 	"types.init|(*codec.LegacyAmino).Seal receives types.amino as argument 0": "amino registration at package initialisation",
 	"cctp.init|core/appmodule.Register receives core/appmodule.Provide(func:cctp.ProvideModule) as argument 1": "depinject registration at package initialisation",
@@ -224,6 +269,9 @@ func mutationDiscipline(p *Prog, r *Report) {
 		if _, ok := knownMemWrites[topName+"|"+w.what]; ok {
 			continue
 		}
+		if _, ok := knownMemWrites[topName+"|"+w.root]; ok && isInit {
+			continue
+		}
 		bad++
 		key := fmt.Sprintf("mutation/%s/%s", funcName(w.fn), w.what)
 		if len(key) > 180 {
@@ -254,7 +302,11 @@ func (p *Prog) memWrites() []memWrite {
 				case *ssa.Store:
 					out = append(out, memWrite{fn, in, memRoot(in.Addr, fn, 0), "store to " + x.Of(in.Addr, in).String()})
 				case *ssa.MapUpdate:
-					out = append(out, memWrite{fn, in, memRoot(in.Map, fn, 0), "map update"})
+					root := memRoot(in.Map, fn, 0)
+					if strings.HasPrefix(root, "param:") && p.freshMapAtEveryCaller(in.Map, fn) {
+						root = "local" // a helper that fills the caller's own fresh map (dup-detection follows it)
+					}
+					out = append(out, memWrite{fn, in, root, "map update"})
 				case *ssa.Call, *ssa.Defer, *ssa.Go:
 					out = append(out, p.callWrites(x, fn, in.(ssa.CallInstruction))...)
 				}
@@ -290,8 +342,31 @@ func (p *Prog) appendBaseOK(v ssa.Value, fn *ssa.Function, seen map[ssa.Value]bo
 	case *ssa.ChangeType:
 		return p.appendBaseOK(o.X, fn, seen, depth+1)
 	case *ssa.Slice:
-		if o.Max != nil && o.High != nil && o.Max == o.High {
-			return true, "" // x[a:b:b]: no spare capacity, append copies
+		if o.Max != nil && o.High != nil {
+			same := o.Max == o.High
+			if a, ok := o.Max.(*ssa.Const); ok {
+				if b, ok := o.High.(*ssa.Const); ok && a.Value != nil && b.Value != nil && a.Int64() == b.Int64() {
+					same = true
+				}
+			}
+			if same {
+				return true, "" // x[a:b:b]: no spare capacity, append copies
+			}
+		}
+		if a, ok := o.X.(*ssa.Alloc); ok && a.Parent() == fn && o.Max == nil {
+			if refs := a.Referrers(); refs != nil {
+				only := true
+				for _, r := range *refs {
+					if r != ssa.Instruction(o) {
+						if _, dbg := r.(*ssa.DebugRef); !dbg {
+							only = false
+						}
+					}
+				}
+				if only {
+					return true, "" // make([]T, n, c) with constant sizes: the array has no other view
+				}
+			}
 		}
 		if o.High == nil {
 			if a, ok := o.X.(*ssa.Alloc); ok && a.Parent() == fn {
@@ -321,6 +396,9 @@ func (p *Prog) appendBaseOK(v ssa.Value, fn *ssa.Function, seen map[ssa.Value]bo
 			return p.appendBaseOK(o.Call.Args[0], fn, seen, depth+1)
 		}
 		if callee := o.Call.StaticCallee(); callee != nil && !o.Call.IsInvoke() {
+			if strings.Contains(funcName(callee), "Endian).AppendUint") && len(o.Call.Args) == 3 {
+				return p.appendBaseOK(o.Call.Args[1], fn, seen, depth+1) // binary.BigEndian.AppendUintNN(b, v) = append(b, …)
+			}
 			if p.returnsFresh(callee, map[*ssa.Function]bool{}) {
 				return true, ""
 			}
@@ -352,6 +430,54 @@ func (p *Prog) appendBaseOK(v ssa.Value, fn *ssa.Function, seen map[ssa.Value]bo
 					return false, "a field of a struct that is shared with other code"
 				}
 				return okAll, why
+			}
+			// a field of a fresh object held in a local / captured variable (res := &Response{}; res.List = append(res.List, …))
+			if ld, ok := a.X.(*ssa.UnOp); ok && ld.Op == token.MUL {
+				var cell *ssa.Alloc
+				switch c := ld.X.(type) {
+				case *ssa.Alloc:
+					cell = c
+				case *ssa.FreeVar:
+					cell = freeVarCell(fn, c)
+				}
+				if cell != nil {
+					var objs []*ssa.Alloc
+					fresh := true
+					forEachCellStore(cell, func(val ssa.Value, sfn *ssa.Function) {
+						if al, ok := val.(*ssa.Alloc); ok && al.Parent() == cell.Parent() {
+							objs = append(objs, al)
+						} else if c, ok := val.(*ssa.Const); ok && c.Value == nil {
+							// nil (a named result cleared on the error path)
+						} else if ld, ok := val.(*ssa.UnOp); ok && ld.X == ssa.Value(cell) {
+							// the variable's own value (return res, nil with named results)
+						} else {
+							fresh = false
+						}
+					})
+					if fresh && len(objs) == 1 {
+						okAll, why := true, ""
+						// every store into that field, by the function and its closures, through the variable
+						var visit func(f *ssa.Function)
+						visit = func(f *ssa.Function) {
+							for _, b := range f.Blocks {
+								for _, in := range b.Instrs {
+									if st, ok := in.(*ssa.Store); ok {
+										if fa, ok := st.Addr.(*ssa.FieldAddr); ok && fa.Field == a.Field && fa.X.Type() == a.X.Type() {
+											if ok, w := p.appendBaseOK(st.Val, f, seen, depth+1); !ok {
+												okAll, why = false, w
+											}
+										}
+									}
+								}
+							}
+							for _, an := range f.AnonFuncs {
+								visit(an)
+							}
+						}
+						visit(cell.Parent())
+						return okAll, why
+					}
+				}
 			}
 			return false, "a field read through a pointer (a parsed message's fields are views into the message bytes)"
 		}
@@ -667,6 +793,9 @@ func (p *Prog) callWrites(x *TX, fn *ssa.Function, in ssa.CallInstruction) []mem
 				if decoderInvokes[name] && i != len(c.Args)-1 {
 					continue // the bytes to decode are read
 				}
+				if decoderInvokes[name] && p.freshAtEveryCaller(m, fn, 0) {
+					continue // a decode helper's destination parameter: every caller hands it its own fresh variable
+				}
 				out = append(out, memWrite{fn, in, "external:" + root, fmt.Sprintf("interface method %s receives %s as argument %d", name, x.Of(m, in).String(), i)})
 			}
 		}
@@ -678,6 +807,10 @@ func (p *Prog) callWrites(x *TX, fn *ssa.Function, in ssa.CallInstruction) []mem
 	}
 	name := funcName(callee)
 	switch {
+	case strings.Contains(name, "Endian).AppendUint") && len(c.Args) == 3:
+		if ok, why := p.appendBaseOK(c.Args[1], fn, map[ssa.Value]bool{}, 0); !ok && !x.localBufferView(c.Args[1]) {
+			out = append(out, memWrite{fn, in, "derived:append", name + " onto " + x.Of(c.Args[1], in).String() + " — " + why})
+		}
 	case strings.Contains(name, "Endian).PutUint") && len(c.Args) == 3:
 		out = append(out, memWrite{fn, in, memRoot(c.Args[1], fn, 0), name + " into " + x.Of(c.Args[1], in).String()})
 	case name == "(*math/big.Int).FillBytes" && len(c.Args) == 2:
@@ -705,7 +838,7 @@ func (p *Prog) callWrites(x *TX, fn *ssa.Function, in ssa.CallInstruction) []mem
 		out = append(out, memWrite{fn, in, "derived:exposes the Int's internal pointer", name})
 	case !p.inModuleCode(callee) && !(callee.Pkg != nil && p.isModulePkgPath(callee.Pkg.Pkg.Path())):
 		// an external callee handed memory that is not the caller's fresh local
-		if argReadOnlyExternals[name] || formatters[name] {
+		if base := strings.SplitN(name, "[", 2)[0]; argReadOnlyExternals[name] || formatters[name] || argReadOnlyExternals[base] {
 			return out
 		}
 		for i, a := range c.Args {
@@ -770,4 +903,77 @@ func dumpMemWrites(p *Prog) {
 		}
 		fmt.Printf("%-18s %-55s %s  @%s\n", w.root, funcName(w.fn), w.what, p.instrPos(w.in))
 	}
+}
+
+// freshAtEveryCaller: v is a parameter of a new helper and every call site passes the address
+// of a fresh local variable of the caller (or, transitively, such a parameter).
+func (p *Prog) freshAtEveryCaller(v ssa.Value, fn *ssa.Function, depth int) bool {
+	if depth > 3 {
+		return false
+	}
+	prm, ok := v.(*ssa.Parameter)
+	if !ok || !p.newHelper(fn) {
+		return false
+	}
+	idx := -1
+	for i, q := range fn.Params {
+		if q == prm {
+			idx = i
+		}
+	}
+	n := 0
+	for _, cs := range p.rawCallersOf(fn) {
+		for _, c := range cs {
+			if idx < 0 || idx >= len(c.Call.Args) {
+				return false
+			}
+			n++
+			a := c.Call.Args[idx]
+			if mi, ok := a.(*ssa.MakeInterface); ok {
+				a = mi.X
+			}
+			if al, ok := a.(*ssa.Alloc); ok && al.Parent() == c.Parent() {
+				continue
+			}
+			if !p.freshAtEveryCaller(a, c.Parent(), depth+1) {
+				return false
+			}
+		}
+	}
+	return n > 0
+}
+
+// freshMapAtEveryCaller: v is a parameter of a new helper and every call site hands it a map
+// the caller made itself.
+func (p *Prog) freshMapAtEveryCaller(v ssa.Value, fn *ssa.Function) bool {
+	for {
+		if ct, ok := v.(*ssa.ChangeType); ok {
+			v = ct.X
+			continue
+		}
+		break
+	}
+	prm, ok := v.(*ssa.Parameter)
+	if !ok || !p.newHelper(fn) {
+		return false
+	}
+	idx := -1
+	for i, q := range fn.Params {
+		if q == prm {
+			idx = i
+		}
+	}
+	n := 0
+	for _, cs := range p.rawCallersOf(fn) {
+		for _, c := range cs {
+			if idx < 0 || idx >= len(c.Call.Args) {
+				return false
+			}
+			n++
+			if memRoot(c.Call.Args[idx], c.Parent(), 0) != "local" {
+				return false
+			}
+		}
+	}
+	return n > 0
 }
